@@ -601,19 +601,41 @@ def rule_wellformed(ctx, res):
     # compress_code: block emitted iff block_len >= 3
     c = model.func(CZ + ':compress_code')
     thr = None
+    recognised = False
     for n_ in walk_own(c.node):
-        if isinstance(n_, ast.If) and 'block_len' in ast.unparse(n_.test) \
-                and isinstance(n_.test, ast.Compare):
+        if isinstance(n_, ast.If) and isinstance(n_.test, ast.Compare) and \
+                len(n_.test.ops) == 1 and isinstance(
+                    n_.test.left, ast.Name) and \
+                n_.test.left.id == 'block_len':
             op = n_.test.ops[0]
             k = ev.eval_expr(mod, n_.test.comparators[0])
-            if isinstance(op, ast.GtE):
-                thr = k
-            elif isinstance(op, ast.Gt):
-                thr = k + 1
-    res.check(thr == 3, 'R-C05-wellformed', c.qual,
-              'a back-reference is emitted only for length >= 3', '',
-              'references are emitted from length {}: the format / property '
-              'require 3..17'.format(thr), c.loc)
+            if not isinstance(k, int):
+                continue
+
+            def advances(stmts):
+                return any(isinstance(x, ast.AugAssign) and
+                           isinstance(x.op, ast.Add) and
+                           ast.unparse(x.value) == 'block_len'
+                           for st in stmts for x in ast.walk(st))
+            in_body, in_else = advances(n_.body), advances(n_.orelse)
+            if in_body == in_else:
+                continue
+            recognised = True
+            # the branch that emits the reference is taken iff len >= thr
+            if in_body:
+                thr = {ast.GtE: k, ast.Gt: k + 1}.get(type(op))
+            else:
+                thr = {ast.Lt: k, ast.LtE: k + 1}.get(type(op))
+    if not recognised or thr is None:
+        res.undecided('R-C05-wellformed', c.qual,
+                      'a back-reference is emitted only for length >= 3',
+                      'the test on block_len that selects between literal '
+                      'and reference is not in a recognised form', c.loc)
+    else:
+        res.check(thr == 3, 'R-C05-wellformed', c.qual,
+                  'a back-reference is emitted only for length >= 3', '',
+                  'references are emitted from length {}: the format / '
+                  'property require 3..17'.format(thr), c.loc)
     # interval arithmetic on the emitted bytes
     if mbl is not None and mhl is not None and n is not None and thr:
         R = ref.C_OFFSET_RADIX
